@@ -109,9 +109,9 @@ Proof. rewrite gen_randomly_rotate_lift. destruct (randomly_rotate rng h); refle
 
 (* the script of randomly_reorient: [pick] for rng.sample(self.nodes(), 1), then the shuffles *)
 Theorem gen_randomly_reorient pick perms ub h :
-  to_hres (Tree_randomly_reorient HG ([pick] :: perms) ub h) = randomly_reorient pick perms ub h.
+  to_hres (Tree_randomly_reorient HG ([pick] :: perms) ub h) = randomly_reorient_r pick perms ub h.
 Proof.
-  unfold Tree_randomly_reorient, randomly_reorient, with_sub. hsimpm. cbv zeta.
+  unfold Tree_randomly_reorient, randomly_reorient_r, with_sub. hsimpm. cbv zeta.
   destruct (abs_at h (seed h)) as [t|]; [|reflexivity].
   destruct (nth_error (pre_ids t) pick) as [nd|]; [|reflexivity].
   rewrite gen_is_leaf. destruct (is_internal h nd); simpl negb; cbv iota.
@@ -119,7 +119,7 @@ Proof.
     rewrite gen_randomly_rotate_lift. destruct (randomly_rotate perms h1); reflexivity.
   - pose proof (gen_to_outgroup_position nd ub true h) as R.
     destruct (Tree_to_outgroup_position HG nd ub true h) as [v s|e s|];
-      destruct (to_outgroup_position nd ub true h) as [h1|e1 h1|]; simpl in R; try discriminate;
+      destruct (to_outgroup_position_r nd ub true h) as [h1|e1 h1|]; simpl in R; try discriminate;
       inversion R; subst; simpl; try reflexivity.
     rewrite gen_randomly_rotate_lift. destruct (randomly_rotate perms h1); reflexivity.
 Qed.
